@@ -330,6 +330,13 @@ func (r *rng) item(p profile, w, h int) (int, string) {
 			}
 			return kind, s + r.pick("h", "l")
 		}
+		if r.chance(1, 5) {
+			// a round trip with keyboard state left behind on the alternate screen and asked for on the next visit:
+			// enter, set and push flags, leave, (query on main), enter again, query, pop, query
+			f1, f2 := 1+r.n(31), 1+r.n(31)
+			return kind, fmt.Sprintf("\x1b[?1049h\x1b[=%du\x1b[>%du\x1b[?1049l%s\x1b[?1049h\x1b[?u\x1b[<u\x1b[?u%s", f1, f2,
+				r.pick("", "\x1b[?u", "x"), r.pick("", "\x1b[?1049l\x1b[?u"))
+		}
 		return kind, "\x1b[?1049" + r.pick("h", "l")
 	case kQuery:
 		if r.chance(1, 3) {
